@@ -26,6 +26,7 @@ type thread struct {
 	daemon bool
 	reason string
 	cond   func() bool // blocked until cond() holds
+	wantMutex *smutex  // stopped right before acquiring this mutex
 }
 
 type schan struct {
@@ -185,10 +186,20 @@ func (p *pathCtx) reschedule() {
 	if cur.state == tRunnable {
 		runnable = append(runnable, cur)
 	}
+	var futile []*thread
 	for _, t := range p.threads {
 		if t != cur && t.state == tRunnable {
+			// a thread stopped right before acquiring a mutex that is currently held would only
+			// block: scheduling it now is equivalent to not scheduling it
+			if t.wantMutex != nil && t.wantMutex.locked {
+				futile = append(futile, t)
+				continue
+			}
 			runnable = append(runnable, t)
 		}
+	}
+	if len(runnable) == 0 {
+		runnable = futile
 	}
 	if len(runnable) == 0 {
 		// nothing can run
@@ -438,7 +449,9 @@ func (p *pathCtx) mutexOf(addr *value) *smutex {
 
 func (p *pathCtx) lock(addr *value) {
 	m := p.mutexOf(addr)
+	p.cur.wantMutex = m
 	p.yieldPoint()
+	p.cur.wantMutex = nil
 	for m.locked {
 		cur := p.cur
 		m.waiters = append(m.waiters, cur)
